@@ -73,6 +73,33 @@ fn check(ctx: &Ctx, dev_name: &str, form: &isa::Form, vals: &[i64]) {
 /// Whatever they do internally, the selected device and its instruction set stay what they were.
 const INERT_KINDS: u64 = 17;
 
+/// The ways a program can come to select its part: the line itself, the line as (part of) a macro body - the
+/// part is then only known once macros are expanded -, the line in a selected branch.
+const DEVICE_ROUTES: u64 = 7;
+
+fn select_device(route: u64, name: &str) -> String {
+    match route {
+        1 => format!(".macro pick_part\n.device {}\n.endm\npick_part\n", name),
+        2 => format!(".macro inner_part\n.device {}\n.endm\n.macro outer_part\n\tinner_part\n.endm\n\touter_part\n", name),
+        3 => format!(".if 1\n.device {}\n.endif\n", name),
+        4 => format!(".ifndef never_defined_c13\n.device {}\n.else\n.device ATmega8\n.endif\n", name),
+        5 => format!(".macro pick_named\n.device @0\n.endm\n\tpick_named {}\n", name),
+        6 => format!(".macro pick_late\n.device {}\n.endm\n; the part is chosen further down\n\n\tpick_late\n", name),
+        _ => format!(".device {}\n", name),
+    }
+}
+
+/// a device line too many: a program holding one never builds, whatever else it holds
+fn second_selection(kind: u64, name: &str) -> String {
+    match kind {
+        0 => format!(".device {}\n", name),
+        1 => format!(".device {}\n.device {}\n", name, name),
+        2 => format!(".device {}\n", if name == "ATmega16" { "ATmega8" } else { "ATmega16" }),
+        3 => format!(".macro again_part\n.device {}\n.endm\n\tagain_part\n", name),
+        _ => String::new(),
+    }
+}
+
 fn inert_lines(rng: &mut Rng, k: usize, has_ram: bool, has_eeprom: bool) -> String {
     let kind = rng.below(24);
     inert_kind(kind, rng, k, has_ram, has_eeprom)
@@ -130,7 +157,8 @@ fn sequences(ctx: &Ctx, rounds: u64) {
         };
         // (a) a program of allowed forms only, sometimes split over several .cseg blocks
         let n = 10 + rng.usize(30);
-        let mut src = format!(".device {}\n", name);
+        let route = (*round + *di as u64) % DEVICE_ROUTES;
+        let mut src = select_device(route, name);
         let mut expect: Vec<u8> = vec![];
         let mut lines: Vec<(usize, String)> = vec![];
         for _ in 0..n {
@@ -151,7 +179,7 @@ fn sequences(ctx: &Ctx, rounds: u64) {
         match &out {
             Outcome::Ok(b) if b.code == expect => {}
             other => ctx.violation(
-                "gate/sequence/allowed-program",
+                if route == 0 { "gate/sequence/allowed-program".to_string() } else { format!("gate/sequence/allowed-program/device-selected-by-route-{}", route) },
                 format!("program of {} instructions that {} has was rejected or mis-assembled: {}", n, name, fw::clip(&format!("{:?}", other.brief()), 160)),
                 json!({"source": src, "device": name, "sequence": true, "must_build": true, "expect_code": fw::hex(&expect, 4096)}),
             ),
@@ -159,7 +187,11 @@ fn sequences(ctx: &Ctx, rounds: u64) {
         // (b) every forbidden form after a prefix that already used allowed forms of the same mnemonic
         for fi in forbidden.iter() {
             let f = &forms[*fi];
-            let mut src = format!(".device {}\n", name);
+            let route = rng.below(DEVICE_ROUTES);
+            let mut src = select_device(route, name);
+            // now and then the part is named once more (that alone fails the build; it never un-selects the part)
+            let again = rng.below(12);
+            src.push_str(&second_selection(again, name));
             // sometimes the code follows (non-empty) data / EEPROM segments, or is split by them
             let seg_noise = |rng: &mut Rng, k: usize| inert_lines(rng, k, dev.ram_size >= 16, dev.eeprom_size >= 16);
             src.push_str(&seg_noise(&mut rng, 0));
@@ -188,7 +220,7 @@ fn sequences(ctx: &Ctx, rounds: u64) {
             if !out.is_err() {
                 let flag = devices::forbidding_flag(dev, &f.name).map(|x| format!("{:?}", x)).unwrap_or_default();
                 ctx.violation(
-                    format!("gate/{}/{}/accepted-after-allowed-instructions", flag, f.name),
+                    format!("gate/{}/{}/accepted-after-allowed-instructions{}{}", flag, f.name, if route == 0 { String::new() } else { format!("/device-selected-by-route-{}", route) }, if again < 4 { "/device-named-again" } else { "" }),
                     format!("`{}` assembled on {} (which has {}) when it followed allowed instructions{}", f.text(&t), name, flag, if siblings.is_empty() { "" } else { " of the same mnemonic" }),
                     json!({"source": src, "device": name, "sequence": true, "must_build": false}),
                 );
@@ -262,7 +294,7 @@ pub fn run(ctx: &Ctx) -> i32 {
     ctx.exhaustive.store(true, std::sync::atomic::Ordering::Relaxed);
     fw::finish(
         ctx,
-        "every device of DEVICES x every instruction form of the reference ISA (the lds/sts form of the device's core) x lowest and highest legal operand tuple (thorough: + 256 random tuples); forbidden iff a flag of the device forbids the form per the DisabledOptions documentation; plus per device 3 (thorough 200) whole programs of 10-40 allowed instructions (must build to the concatenated encodings) and, for every forbidden form, a program where it follows 1-6 allowed instructions incl. allowed forms of the same mnemonic, with non-empty data / EEPROM segments before and between the code (must fail); distinct_nontrivial = distinct (device, form) pairs",
+        "every device of DEVICES x every instruction form of the reference ISA (the lds/sts form of the device's core) x lowest and highest legal operand tuple (thorough: + 256 random tuples); forbidden iff a flag of the device forbids the form per the DisabledOptions documentation; plus per device 3 (thorough 200) whole programs of 10-40 allowed instructions (must build to the concatenated encodings) and, for every forbidden form, a program where it follows 1-6 allowed instructions incl. allowed forms of the same mnemonic, with non-empty data / EEPROM segments before and between the code (must fail); in these programs the part is selected in one of 7 ways (the line itself; as the body of a macro, of a nested macro, of a macro that takes the name as argument; in a selected branch) and a third of the must-fail programs name the part a second time; distinct_nontrivial = distinct (device, form) pairs",
         &["flag→forms map transcribed from the doc comments of DisabledOptions (refmodel/devices.rs); flags read from the DEVICES table at run time, as the statement says"],
     )
 }
